@@ -415,7 +415,9 @@ class TempoSuite(PairedSuite):
             mode = rng.choice(["exact", "exact", "geometric", "fixed", "change"])
             leads = rng.choice([True, False])
             ratio = Fraction(rng.randint(93, 107), 100)
-            offset = Fraction(rng.randint(-30, 40), 100) if leads else 0
+            # ("any offset when a human leads": also a pull-off long before or after the nominal Look to + 3 s)
+            offset = (rng.choice([Fraction(rng.randint(-30, 40), 100)] * 2 + [Fraction(-22, 10), Fraction(-1), Fraction(-7, 10), Fraction(3, 2)])
+                      if leads else 0)
             mb = rng.choice([5, 8, 15, 30])
             jit = rng.choice([0, 100])
             # a third of the sessions are the second touch of a rhythm object that followed the same humans
